@@ -26,7 +26,7 @@ def rank_worse(before_sorted, after_sorted, tol=1e-6):
 
 def kernel_level(res, rng, n_cases):
     for c in range(n_cases):
-        cfg = dk.nnd_case(rng, small=(c % 2 == 0)); cfg["init"] = "heap"; cfg["fill"] = float(rng.choice([0.2, 0.7, 1.5]))
+        cfg = dk.nnd_case(rng, small=(c % 2 == 0)); cfg["init"] = "heap"; cfg["sparse"] = (c % 3 == 2); cfg["fill"] = float(rng.choice([0.2, 0.7, 1.5]))
         n, k = cfg["n"], cfg["k"]
         low = bool(rng.integers(2))
         impl, line, (_, _, ind, dst, init) = dk.run_nnd_pair(cfg, low)
@@ -39,7 +39,7 @@ def kernel_level(res, rng, n_cases):
         worse = np.argwhere(after > before)
         res.case(("kernel",) + tuple(sorted(cfg.items())), nontrivial=bool((after < before).any()),
                  sample={"cfg": cfg, "row0_before": before[0].tolist(), "row0_after": after[0].tolist()})
-        res.count("kernel_cases"); res.count("rows_improved", int((after < before).any(axis=1).sum()))
+        res.count("kernel_cases"); res.count("kernel_sparse" if cfg.get("sparse") else "kernel_dense"); res.count("rows_improved", int((after < before).any(axis=1).sum()))
         if len(worse):
             p, j = worse[0]
             res.violation("rank:kernel", "row %d rank %d got worse: %r -> %r" % (p, j, float(before[p, j]), float(after[p, j])),
